@@ -136,7 +136,7 @@ pub fn run(_env: &Env, run: &Run) -> (Stats, Coverage) {
     let prop = run.prop.clone();
     watch::start_monitor(Duration::from_secs(10), move |what, cps, secs| {
         // a case that does not return: report and end the run
-        let dir = crate::ucd::verif_dir().join("replays").join(&prop);
+        let dir = crate::engine::out_dir().join("replays").join(&prop);
         let _ = std::fs::create_dir_all(&dir);
         let p = dir.join("stuck.json");
         let body = json!({"property": prop, "kind": "does_not_return", "case": {"op": what, "strs": [cps], "nums": [], "extra": null}, "expected": "returns", "actual": format!("still running after {} s", secs)});
@@ -176,7 +176,7 @@ pub fn run(_env: &Env, run: &Run) -> (Stats, Coverage) {
         st.merge(s2);
     }
     // (c)+(d) string tree: all operations; context rules at every position for short strings
-    let sigma = sigma01();
+    let sigma = crate::sig::rotated(_env, sigma01(), run.seed);
     let n = run.tier.pick(3, 4);
     st.merge(strtree(&sigma, n, |chars, s, st| {
         all_ops(s, chars, st);
